@@ -51,7 +51,8 @@ def strip_obs(h):
 def model_check(chk, name, c, *, invariants=ALL_INV, timeout=1500, workers=None):
     """Decide the invariants on the bounded state graph (VIEW hides hist)."""
     cfg = write_cfg(name, c, invariants=invariants, view="StateView")
-    res = vkit.tlc("Bev", cfg, want_prints=False, timeout=timeout, coverage=False, workers=workers)
+    cap = int(os.environ.get("BEV_WORKERS", "0") or 0)
+    res = vkit.tlc("Bev", cfg, want_prints=False, timeout=timeout, coverage=False, workers=workers or (cap or None))
     vkit.log("[mc] %s: %d distinct states, %.1fs" % (name, res.distinct, res.wall))
     chk.add_tlc(name, res)
     return res
@@ -69,8 +70,10 @@ def generate(chk, name, c, *, simulate=None, depth=60, seed=None, invariants=ALL
         seen.add(k)
         if max_hist is None or len(hists) < max_hist:
             hists.append(v)
+    cap = int(os.environ.get("BEV_WORKERS", "0") or 0)
+    w = workers or (8 if simulate else min(vkit.NCPU, 8))      # simulate=N is per worker: w workers -> w*N histories
     res = vkit.tlc("Bev", cfg, simulate=simulate, depth=depth if simulate else None, seed=seed, print_sink=sink,
-                   timeout=timeout, workers=workers or (8 if simulate else vkit.NCPU))
+                   timeout=timeout, workers=min(w, cap) if cap and not simulate else w)
     vkit.log("[gen] %s: %d histories, %d states, %.1fs" % (name, len(hists), res.generated, res.wall))
     chk.add_tlc(name, res)
     return hists
@@ -198,9 +201,31 @@ def standard_run(pid, tier, seed, plan):
     for g in plan["gen"]:
         hs = generate(chk, g["name"], g["consts"], simulate=g.get("simulate"), depth=g.get("depth", 40),
                       seed=seed if g.get("simulate") else None, max_hist=g.get("max_hist"),
-                      invariants=g.get("invariants", ALL_INV))
+                      invariants=g.get("invariants", ALL_INV),
+                      workers=g.get("workers") or ((4 if tier == "quick" else 8) if g.get("simulate") else None))
         if not hs:
             raise vkit.InfraError("generator %s produced no histories" % g["name"])
+        if g.get("known_keys"):
+            # the generator admits known-finding triggers (Allow): histories that met one are the canonical
+            # scenarios of that finding (expected to fail, reported under its key), the rest is general corpus
+            kn = [h for h in hs if h[-1].get("kf", 0) > 0]
+            hs = [h for h in hs if h[-1].get("kf", 0) == 0]
+            dc = drv_cfg(g["consts"])
+            for bit, key in g["known_keys"].items():
+                sel = [h for h in kn if h[-1]["kf"] == bit][:g.get("take", 8)]
+                if not sel:
+                    raise vkit.InfraError("no canonical scenario generated for known finding %s" % key)
+                outs = vkit.run_driver(exe, [{"cfg": dc, "h": h} for h in sel])
+                fails = vkit.compare_histories(project_all(sel, pid), adapt_actual(outs, pid))
+                for (i, k, msg) in fails[:2]:
+                    chk.violation("%s scenario %d step %d: %s" % (key, i, k, msg),
+                                  {"cfg": dc, "h": sel[i], "fail_step": k, "msg": msg, "actual": outs[i]}, key=key)
+                nm = run_monitor(chk, mon_of(g["consts"]), sel, outs, dc, g["name"], key=key)
+                chk.cov["traces_validated_against_impl"] += len(sel)
+                chk.cov.setdefault("known_finding_scenarios", {})[key] = {"run": len(sel), "model_mismatch": len(fails),
+                                                                         "monitor_flagged": nm}
+            if not hs:
+                raise vkit.InfraError("generator %s produced no general histories" % g["name"])
         for h in hs:
             chk.count_case(strip_all(h), nontrivial(h))
         for h in hs[-1:]:
